@@ -82,6 +82,10 @@ impl Prop {
     }
 }
 
+/// `ui.diff-editor` used by `jj diffedit`: appends a line to every file of the
+/// right-hand side.
+const DIFFEDIT_TOOL: &str = r#"ui.diff-editor=["sh","-c",'find "$0" -type f ! -name JJ-INSTRUCTIONS | while read f; do echo edited >> "$f"; done',"$right"]"#;
+
 /// (kind, weight) per property. Kinds that are not applicable at the moment
 /// (e.g. `ws_add` when the second workspace exists) are filtered out.
 fn weights(prop: Prop) -> Vec<(&'static str, usize)> {
@@ -155,6 +159,10 @@ fn weights(prop: Prop) -> Vec<(&'static str, usize)> {
             ("simplify", 1),
             ("chmod", 2),
             ("revert", 2),
+            ("diffedit", 4),
+            ("fix", 2),
+            ("resolve", 1),
+            ("sign", 2),
             ("next_prev", 2),
             ("bookmark_create", 5),
             ("bookmark_move", 3),
@@ -914,6 +922,63 @@ impl<'a> Sim<'a> {
                 (*rng.pick(&["--onto", "--insert-after", "--insert-before"])).to_owned(),
                 rev(self, rng),
             ],
+            // The diff editor appends a line to every file of the right side,
+            // so the target is really rewritten when it has changes to edit.
+            "diffedit" => {
+                let mut a = vec!["diffedit".to_owned(), "--config".to_owned(), DIFFEDIT_TOOL.to_owned()];
+                match rng.below(4) {
+                    0 => {}
+                    1 => {
+                        a.push("-r".into());
+                        a.push(rev(self, rng));
+                    }
+                    2 => {
+                        a.push("--from".into());
+                        a.push(rev(self, rng));
+                        a.push("--to".into());
+                        a.push(rev(self, rng));
+                    }
+                    _ => {
+                        a.push("--from".into());
+                        a.push("@".into());
+                        a.push("--to".into());
+                        a.push(rev(self, rng));
+                    }
+                }
+                a
+            }
+            "fix" => {
+                let mut a = strs(&[
+                    "fix",
+                    "--config",
+                    r#"fix.tools.up.command=["tr","a-z","A-Z"]"#,
+                    "--config",
+                    r#"fix.tools.up.patterns=["all()"]"#,
+                ]);
+                if rng.chance(2, 3) {
+                    a.push("-s".into());
+                    a.push(rev(self, rng));
+                }
+                a
+            }
+            "resolve" => {
+                vec!["resolve".into(), "-r".into(), rev(self, rng), "--tool".into(), (*rng.pick(&[":ours", ":theirs"])).to_owned()]
+            }
+            "sign" => {
+                if rng.chance(2, 3) {
+                    vec![
+                        "sign".into(),
+                        "-r".into(),
+                        rev(self, rng),
+                        "--config".into(),
+                        "signing.backend=test".into(),
+                        "--config".into(),
+                        "signing.key=k".into(),
+                    ]
+                } else {
+                    vec!["unsign".into(), "-r".into(), rev(self, rng)]
+                }
+            }
             "next_prev" => {
                 let mut a = vec![(*rng.pick(&["next", "prev"])).to_owned()];
                 if rng.bool() {
